@@ -27,28 +27,47 @@ DOMAINS = ["my.domain", "com.acme", "custom.x"]
 
 # ----------------------------------------------------------------------------- environment
 class Env:
-    def __init__(self):
+    """`spox` public API + the extension interface of docs/manual/unstable.rst are required; every
+    other internal the harness *observes* through is optional (`None` when it cannot be found)."""
+
+    def __init__(self, ck=None):
         import numpy as np
         import onnx
         import spox
         import spox._attributes as A
         import spox._fields as F
-        import spox._future as fut
         import spox._node as N
-        import spox._scope
         import spox._type_system as ts
-        import spox._value_prop as vp
         import spox.opset.ai.onnx.v17 as op
         from spox import argument, build, inline
-        from spox._graph import results
-        from spox._internal_op import unsafe_cast
 
-        self.np, self.onnx, self.spox, self.A, self.F, self.N, self.ts, self.vp = np, onnx, spox, A, F, N, ts, vp
-        self.fut, self.op, self.argument, self.build, self.inline = fut, op, argument, build, inline
-        self.results, self.unsafe_cast = results, unsafe_cast
-        self.Scope = spox._scope.Scope
+        self.np, self.onnx, self.spox, self.A, self.F, self.N, self.ts = np, onnx, spox, A, F, N, ts
+        self.op, self.argument, self.build, self.inline = op, argument, build, inline
         self.Var = spox.Var
-        self.levels = list(N.TypeWarningLevel)
+        self.missing = []
+
+        def opt(name, getter):
+            try:
+                return getter()
+            except Exception as e:  # noqa: BLE001
+                self.missing.append(f"{name}: {type(e).__name__}: {e}")
+                return None
+
+        self.Scope = opt("spox._scope.Scope", lambda: __import__("spox._scope", fromlist=["Scope"]).Scope)
+        self.vp = opt("spox._value_prop", lambda: __import__("spox._value_prop", fromlist=["PropValue"]))
+        self.fut = opt("spox._future", lambda: __import__("spox._future", fromlist=["type_warning_level"]))
+        self.results = opt("spox._graph.results", lambda: __import__("spox._graph", fromlist=["results"]).results)
+        self.subgraph = opt("spox._graph.subgraph", lambda: __import__("spox._graph", fromlist=["subgraph"]).subgraph)
+        self.policy = opt("spox._schemas.max_opset_policy",
+                          lambda: __import__("spox._schemas", fromlist=["max_opset_policy"]).max_opset_policy)
+        self.levels = opt("TypeWarningLevel", lambda: list(N.TypeWarningLevel)) or []
+        if ck is not None:
+            for m in self.missing:
+                ck.broken("correspondence", "spox internal not observable", m)
+
+    @property
+    def can_level(self):
+        return self.fut is not None and hasattr(self.fut, "type_warning_level") and len(self.levels) == 4
 
 
 ATTR_KINDS = ["AttrInt64", "AttrFloat32", "AttrString", "AttrInt64s", "AttrFloat32s", "AttrStrings",
@@ -79,7 +98,7 @@ def attr_value(env: Env, kind: str, rng):
         return [np.arange(rng.randrange(1, 3), dtype=rng.choice([np.int64, np.float32])) for _ in range(rng.randrange(0, 3))]
     if kind == "AttrGraph":
         c = rng.randrange(1, 5)
-        return env.spox._graph.subgraph((), lambda: [env.op.const(np.array([float(c)], np.float32))])
+        return env.subgraph((), lambda: [env.op.const(np.array([float(c)], np.float32))])
     raise ValueError(kind)
 
 
@@ -173,7 +192,8 @@ def gen_sig(rng, idx: int, force=None):
     }
     sig.update(force)
     # one instantiation
-    inst = {"present": {}, "nvar": 0, "out_nvar": None, "attrs": {}, "typed_inputs": rng.random() < 0.8}
+    inst = {"present": {}, "nvar": 0, "out_nvar": None, "attrs": {}, "typed_inputs": rng.random() < 0.8,
+            "const_inputs": rng.random() < 0.4}
     for n, k in sig["inputs"]:
         if k == "optional":
             inst["present"][n] = rng.random() < 0.5
@@ -268,8 +288,11 @@ def instantiate(env: Env, sig, cls, rng, given_inputs=None):
         if given_inputs is not None and name in given_inputs:
             v = given_inputs[name]
         else:
-            v = env.argument(ts.Tensor(np.float32, (2,)))
-            if not inst["typed_inputs"]:
+            if inst.get("const_inputs") and len(keep) % 2 == 0:
+                v = env.op.const(np.array([1.0, 2.0], np.float32))  # a Var with a propagated value
+            else:
+                v = env.argument(ts.Tensor(np.float32, (2,)))
+            if not inst["typed_inputs"] and getattr(v, "_value", None) is None:
                 v.type = None
         keep.append(v)
         names[id(v)] = name
@@ -295,9 +318,12 @@ def instantiate(env: Env, sig, cls, rng, given_inputs=None):
         else:
             avals[a["name"]] = None
             akw[a["name"]] = None
+    import contextlib
+
     with warnings.catch_warnings(record=True) as caught:
         warnings.simplefilter("always")
-        with env.fut.type_warning_level(env.levels[sig["level"]]):
+        lvl = env.fut.type_warning_level(env.levels[sig["level"]]) if env.can_level else contextlib.nullcontext()
+        with lvl:
             node = cls(cls.Attributes(**akw), cls.Inputs(**kw), out_variadic=inst["out_nvar"])
     node._keep = keep
     return node, names, avals, caught
@@ -389,6 +415,15 @@ def strip(sig):
 
 
 def run_case(ck, env: Env, sig, rng, reqs, metas, stats):
+    try:
+        _run_case(ck, env, sig, rng, reqs, metas, stats)
+    except Exception as e:  # noqa: BLE001 - the harness could not observe; never a crash, never a verdict
+        stats["unobservable"] = stats.get("unobservable", 0) + 1
+        if stats["unobservable"] <= 3:
+            ck.broken("correspondence", "custom-operator case not observable", f"{type(e).__name__}: {e}; sig={sig['name']}")
+
+
+def _run_case(ck, env: Env, sig, rng, reqs, metas, stats):
     """Real instantiation + model-free judgement; queues the model requests."""
     th, vh = hook_dicts(env, sig)
     cls = make_class(env, sig, th, vh)
@@ -430,9 +465,13 @@ def run_case(ck, env: Env, sig, rng, reqs, metas, stats):
     others = [w for w in wl if w[0].startswith("other")]
     if others:
         ck.failure("hooks:foreign-warning", f"unexpected warning {others[0]}", case)
-    # ---- oracle: emission (model-free)
+    # ---- oracle: emission (model-free; through Node.to_onnx - the public path is compose_case)
+    if env.Scope is None or not callable(getattr(node, "to_onnx", None)):
+        return
     try:
         protos = emit_real(env, node, names)
+    except (AttributeError, TypeError) as e:
+        raise RuntimeError(f"Node.to_onnx/Scope not usable as expected: {e}") from e
     except Exception as e:  # noqa: BLE001
         ck.failure("emit:raises", f"to_onnx raised {type(e).__name__}: {e}"[:300], case)
         return
@@ -545,7 +584,16 @@ def find_nodes(graph, domain):
     return out
 
 
-def compose_case(ck, env: Env, sig, position: str, rng, opset_reqs, v2=None):
+def compose_case(ck, env: Env, sig, position: str, rng, opset_reqs, v2=None, deep_only=None):
+    try:
+        _compose_case(ck, env, sig, position, rng, opset_reqs, v2, deep_only)
+    except AttrRejected:
+        return
+    except Exception as e:  # noqa: BLE001
+        ck.broken("correspondence", f"composition case ({position}) not observable", f"{type(e).__name__}: {e}")
+
+
+def _compose_case(ck, env: Env, sig, position: str, rng, opset_reqs, v2=None, deep_only=None):
     """Place one application of a (typed) custom operator at `position` of a surrounding program,
     build, and inspect the ModelProto independently."""
     np, ts, op = env.np, env.ts, env.op
@@ -556,7 +604,9 @@ def compose_case(ck, env: Env, sig, position: str, rng, opset_reqs, v2=None):
     cls = make_class(env, sig, th, vh)
     if v2 is None:
         v2 = sig["version"] + (rng.choice([-1, 1, 2]) if sig["version"] > 1 else 1)
-    case = {"kind": "compose", "position": position, "sig": strip(sig), "v2": v2}
+    if deep_only is None:
+        deep_only = position != "top" and rng.random() < 0.4
+    case = {"kind": "compose", "position": position, "sig": strip(sig), "v2": v2, "deep_only": deep_only}
     slots = [s for s in expected_slots(sig) if s]
     args = {s: env.argument(ts.Tensor(np.float32, (2,))) for s in slots}
     cond = env.argument(ts.Tensor(np.bool_, ()))
@@ -568,6 +618,7 @@ def compose_case(ck, env: Env, sig, position: str, rng, opset_reqs, v2=None):
     cls2 = make_class(env, sig2, th2, None)
     extra_in = env.argument(ts.Tensor(np.float32, (1,)))
     built = {}
+    stats_unobs = []
 
     def apply():
         node, names, avals, _ = instantiate(env, sig, cls, rng, given_inputs=args)
@@ -579,8 +630,10 @@ def compose_case(ck, env: Env, sig, position: str, rng, opset_reqs, v2=None):
             warnings.simplefilter("ignore")
             inputs = dict(args)
             inputs["extra"] = extra_in
-            n2 = cls2(cls2.Attributes(), cls2.Inputs(i0=extra_in))
-            outs = {"z": n2.outputs.o0}
+            outs = {}
+            if not deep_only:  # otherwise the custom domain is used *only* inside the nested body
+                n2 = cls2(cls2.Attributes(), cls2.Inputs(i0=extra_in))
+                outs["z"] = n2.outputs.o0
             if position == "top":
                 y = apply()
                 outs["y"] = op.identity(y)
@@ -590,6 +643,25 @@ def compose_case(ck, env: Env, sig, position: str, rng, opset_reqs, v2=None):
                 inputs["x0"] = x0
                 (r,) = op.if_(cond, then_branch=lambda: [apply()], else_branch=lambda: [x0])
                 outs["y"] = r
+            elif position == "if2":  # two bodies deep
+                inputs["cond"] = cond
+                x0 = env.argument(ts.Tensor(np.float32, (1,)))
+                inputs["x0"] = x0
+                (r,) = op.if_(
+                    cond,
+                    then_branch=lambda: list(op.if_(cond, then_branch=lambda: [apply()], else_branch=lambda: [x0])),
+                    else_branch=lambda: [x0],
+                )
+                outs["y"] = r
+            elif position == "loop-if":  # If inside a Loop body
+                m = op.const(np.array([2], np.int64))
+                inputs["cond"] = cond
+                res = op.loop(
+                    m, v_initial=[extra_in],
+                    body=lambda i, c, a: [op.const(np.array(True)),
+                                          op.add(a, op.if_(cond, then_branch=lambda: [apply()], else_branch=lambda: [a])[0])],
+                )
+                outs["y"] = res[0]
             elif position == "loop":
                 inputs["cond"] = cond
                 m = op.const(np.array([2], np.int64))
@@ -603,9 +675,12 @@ def compose_case(ck, env: Env, sig, position: str, rng, opset_reqs, v2=None):
                 (b,) = env.inline(m0)(y).values()
                 (c,) = env.inline(m0)(extra_in).values()
                 outs["y"] = op.add(b, c)
-            graph = env.results(**outs).with_arguments(*inputs.values())
             model = env.build(inputs, outs)
-            real_req = sorted(graph._get_opset_req())
+            real_req = None
+            try:
+                real_req = sorted(env.results(**outs).with_arguments(*inputs.values())._get_opset_req())
+            except Exception:  # noqa: BLE001 - only the correspondence needs it
+                stats_unobs.append("Graph._get_opset_req")
     except AttrRejected:
         return
     except Exception as e:  # noqa: BLE001
@@ -626,18 +701,26 @@ def compose_case(ck, env: Env, sig, position: str, rng, opset_reqs, v2=None):
     if got_attrs != want_attrs:
         ck.failure(f"build:{position}:verbatim", f"attributes {got_attrs}, expected {want_attrs}", case)
     imports = {o.domain: o.version for o in model.opset_import}
-    want_v = max(sig["version"], sig2["version"])
+    want_v = sig["version"] if deep_only else max(sig["version"], sig2["version"])
     if imports.get(sig["domain"]) != want_v:
         ck.failure(f"import:{position}:version", f"opset import for {sig['domain']} is {imports.get(sig['domain'])}; versions used "
-                   f"{sig['version']} and {sig2['version']}", case)
+                   f"{sig['version']}" + ("" if deep_only else f" and {sig2['version']}"), case)
     if len([o for o in model.opset_import if o.domain == sig["domain"]]) != 1:
         ck.failure(f"import:{position}:duplicate", "several imports of the custom domain", case)
-    opset_reqs.append((real_req, imports, position))
+    if real_req is not None:
+        opset_reqs.append((real_req, imports, position))
     ck.count(("compose", position, repr(sig["inputs"]), repr(sig["inst"])))
 
 
 # ----------------------------------------------------------------------------- execution
 def exec_case(ck, env: Env, position: str, k: float, stats):
+    try:
+        _exec_case(ck, env, position, k, stats)
+    except Exception as e:  # noqa: BLE001
+        ck.broken("correspondence", f"execution case ({position}) not observable", f"{type(e).__name__}: {e}")
+
+
+def _exec_case(ck, env: Env, position: str, k: float, stats):
     """`ScaleAdd(X, B; k)` as a custom Node; the test model registers the domain as an ONNX function
     (Y = X * k + B) so that runtimes can execute it; compared with numpy."""
     np, ts, op, onnx = env.np, env.ts, env.op, env.onnx
@@ -735,7 +818,12 @@ def reinfer_case(ck, env: Env, sig, rng):
     case = {"kind": "reinfer", "sig": strip(sig)}
     with warnings.catch_warnings():
         warnings.simplefilter("ignore")
-        node, _, _, _ = instantiate(env, sig, cls, rng)
+        try:
+            node, _, _, _ = instantiate(env, sig, cls, rng)
+        except AttrRejected:
+            return None, []
+        if not callable(getattr(node, "inference", None)):
+            raise RuntimeError("Node.inference not observable")
         before = [(k, v.type, v._value) for k, v in node.outputs.get_vars().items()]
         cls.infer_output_types = lambda self: {k: ts.Tensor(np.int64, (7,)) for k in th}
         cls.propagate_values = lambda self: {k: np.full_like(v, 9.0) for k, v in vh.items()}  # conforming, different
@@ -768,7 +856,7 @@ def run(ck: core.Check):
     ck.lean(["SpoxModel.Props.C18"], audit="SpoxModel.Audit.C18")
     if ck.thorough:
         ck.leanchecker(["SpoxModel.Props.C18"])
-    env = Env()
+    env = Env(ck)
     rng = ck.rng
     stats = {"warnings": 0, "absent_optionals": 0, "trailing_absent_kept": 0, "attrs": 0,
              "exec_runs": 0, "exec_runtime_unsupported": 0, "thook": {}, "vhook": {}}
@@ -796,28 +884,36 @@ def run(ck: core.Check):
     # second inference
     re_meta = []
     for i in range(ck.pick(20, 100)):
-        rq, keys = reinfer_case(ck, env, gen_sig(rng, 20_000 + i), rng)
-        reqs.append(rq)
-        metas.append(("reinfer", None, keys))
+        try:
+            rq, keys = reinfer_case(ck, env, gen_sig(rng, 20_000 + i), rng)
+        except Exception as e:  # noqa: BLE001
+            ck.broken("correspondence", "second inference not observable", f"{type(e).__name__}: {e}")
+            break
+        if rq is not None:
+            reqs.append(rq)
+            metas.append(("reinfer", None, keys))
     # composition
     opset_reqs = []
     for i in range(ck.pick(40, 300)):
         sig = gen_sig(rng, 30_000 + i)
-        for position in ("top", "if", "loop", "inline"):
+        for position in ("top", "if", "loop", "inline", "if2", "loop-if"):
             compose_case(ck, env, sig, position, rng, opset_reqs)
     for req, imports, position in opset_reqs:
         reqs.append({"kind": "opsets", "reqs": [[d, v] for d, v in req]})
         metas.append(("opsets", None, (imports, position)))
     # max_opset_policy itself, on random requirement sets
-    import spox._schemas as S
-
-    pol_real = []
     for _ in range(ck.pick(150, 1500)):
         rs = sorted({(rng.choice(["", "ai.onnx", "ai.onnx.ml", "my.domain", "com.acme"]), rng.randrange(0, 24))
                      for _ in range(rng.randrange(0, 9))})
-        pol_real.append(S.max_opset_policy(set(rs)))
+        if env.policy is None:
+            break
+        try:
+            real = dict(env.policy(set(rs)))
+        except Exception as e:  # noqa: BLE001
+            ck.broken("correspondence", "max_opset_policy not observable", f"{type(e).__name__}: {e}")
+            break
         reqs.append({"kind": "opsets", "reqs": [[d, v] for d, v in rs]})
-        metas.append(("opsets", None, (pol_real[-1], "random set")))
+        metas.append(("opsets", None, (real, "random set")))
         ck.count(("policy", tuple(rs)))
     # execution
     for position in ("top", "if", "twice"):
@@ -834,7 +930,10 @@ def run(ck: core.Check):
     mism = 0
     for (kind, sig, real), m in zip(metas, outs):
         if kind in ("node", "infer"):
-            d = compare_model(ck, kind, sig, real, m, env)
+            try:
+                d = compare_model(ck, kind, sig, real, m, env)
+            except Exception as e:  # noqa: BLE001
+                d = f"comparison not observable: {type(e).__name__}: {e}"
         elif kind == "reinfer":
             want = [{"key": k, "type": "T0", "value": "V0"} for k in real]
             d = None if m.get("outs") == want and m.get("warns") == [] else f"second inference: model {m}"
@@ -849,8 +948,8 @@ def run(ck: core.Check):
     stats["model_requests"] = len(reqs)
     stats["model_mismatches"] = mism
     ck.cov["distribution"] = stats
-    ck.sample({k: v for k, v in sigs[0].items()}, 2)
-    ck.sample({k: v for k, v in sigs[7].items()}, 2)
+    for s_ in sigs[:8:7]:
+        ck.sample({k: v for k, v in s_.items()}, 2)
     ck.exhaustive = False
     ck.rule = (
         f"{n} seeded random signatures (0-2 single, 0-3 optional in any position, optional variadic tail; 1-3 outputs "
@@ -858,7 +957,7 @@ def run(ck: core.Check):
         "type hook absent/total/partial/junk/non-concrete/empty x value hook absent/total/partial/junk/ill-typed/empty "
         "x warning level 0-3 x typed/untyped inputs) + all 8 presence patterns of 3 optionals x variadic tail; "
         "composition: each of 40 (300) signatures at top level / in an If branch / in a Loop body / next to inlined "
-        "models, with a second class of the same domain at another version; execution: 3 positions x 2 attribute "
+        "models / two Ifs deep / in an If inside a Loop body (in 40% of the nested cases the custom domain occurs only there), with a second class of the same domain at another version; execution: 3 positions x 2 attribute "
         "values x 2 conditions on onnx.reference and onnxruntime"
     )
     ck.assumptions += [
@@ -871,7 +970,7 @@ def replay(ck: core.Check, doc) -> bool:
     if doc.get("kind") == "obligation" or "case" not in doc:
         res = ck.lean(["SpoxModel.Props.C18"], audit="SpoxModel.Audit.C18")
         return not res.ok
-    env = Env()
+    env = Env(ck)
     c = doc["case"]
     rng = __import__("random").Random(doc.get("seed", 0))
     stats = {"warnings": 0, "absent_optionals": 0, "trailing_absent_kept": 0, "attrs": 0, "exec_runs": 0,
@@ -886,7 +985,7 @@ def replay(ck: core.Check, doc) -> bool:
     if c["kind"] == "node":
         run_case(ck, env, fix(c["sig"]), rng, [], [], stats)
     elif c["kind"] == "compose":
-        compose_case(ck, env, fix(c["sig"]), c["position"], rng, [], c.get("v2"))
+        compose_case(ck, env, fix(c["sig"]), c["position"], rng, [], c.get("v2"), c.get("deep_only"))
     elif c["kind"] == "exec":
         exec_case(ck, env, c["position"], c["k"], stats)
     elif c["kind"] == "reinfer":
